@@ -252,7 +252,7 @@ def _run(ck, m):
     wv = lay('storage::disk::write_value', codec.write_layout)
     wm = lay('storage::disk::write_metadata_file', codec.write_layout)
     wu = lay('storage::disk::update_key', codec.write_layout)
-    rl = lay('storage::disk::create_db_from_file_name', codec.read_layout)
+    rl = lay('storage::disk::create_db_from_file_name', lambda b_: codec.read_layout_deep(P, b_))
     rm = lay('storage::disk::load_db_metadata_from_disk_or_empty', codec.read_layout)
     if None in (wk, wv, wm, wu, rl, rm):
         ck.undecided('C06.c', 'codec', 'anchors', 'writer / loader functions not all found')
@@ -521,13 +521,11 @@ def offsets_rules(ck, m):
     sbod = store_fn(m)
     upd = [b for b in P.user_bodies() if b.kind == 'method' and b.argc == 1 and b.locals[0] == 'nundb::bo::ValueStatus' and b.locals[1] == '&nundb::bo::Value']
     nl_ = 0
-    for bi_, bl_ in enumerate(sbod.blocks):
-        if bl_.get('cleanup'):
-            continue
-        for s_ in bl_['s']:
-            if s_['k'] == 'assign' and s_['r']['k'] == 'agg' and s_['r'].get('variant') == 'VersionError' and 'state' in s_['r'].get('fields', []):
+    from props.C02 import version_error_sites
+    for bi_, op, _b in version_error_sites(m, sbod):
+        if True:
+            if op is not None:
                 nl_ += 1
-                op = s_['r']['ops'][s_['r']['fields'].index('state')]
                 roots = origins(sbod, op, stop_at_calls=True)
                 from_update = bool(roots) and bool(upd) and all(r[0] == 'call' and callee(sbod.term(r[1])) == upd[0].id for r in roots)
                 ck.ob('C06.l', short(sbod.id), 'version-error-carries-updated-state', from_update,
